@@ -204,6 +204,22 @@ def r_transl(ctx):
         ctx.ob("R-TRANSL", "expression_to_sparse_matrices::returns six arrays", False, "does not return 6 values", loc(sparse, sparse))
         return
     gi, gj, gv, fi, fv, cv = names
+    # the three G arrays may be read back from one list of (row, column, value) triplets
+    triplets = None
+    comps = {}
+    for nm in (gi, gj, gv):
+        d = [s0 for s0 in flow.stmts_of(sparse, ast.Assign) if dotted(s0.targets[0]) == nm and isinstance(s0.value, ast.Call) and call_name(s0.value) == "array"
+             and s0.value.args and isinstance(s0.value.args[0], ast.ListComp)]
+        if len(d) == 1:
+            lc = d[0].value.args[0]
+            g0 = lc.generators[0]
+            if len(lc.generators) == 1 and not g0.ifs and isinstance(g0.target, ast.Tuple) and len(g0.target.elts) == 3 and isinstance(lc.elt, ast.Name) \
+                    and isinstance(g0.iter, ast.Name):
+                pos = [k for k, e in enumerate(g0.target.elts) if isinstance(e, ast.Name) and e.id == lc.elt.id]
+                if len(pos) == 1:
+                    comps[nm] = (g0.iter.id, pos[0])
+    if len(comps) == 3 and len({v[0] for v in comps.values()}) == 1 and [comps[gi][1], comps[gj][1], comps[gv][1]] == [0, 1, 2]:
+        triplets = comps[gi][0]
     # leaf branch of the dispatch: lock-step appends of (index, weight)
     body = cs.kinds.get("leaf", [])
     a_i = [n for n in ast.walk(ast.Module(body=body, type_ignores=[])) if isinstance(n, ast.Call) and call_name(n) == "append" and dotted(n.func.value) == fi]
@@ -237,7 +253,7 @@ def r_transl(ctx):
     for (c1, c2), mirrored, exp in cases:
         label = "first index %s second, mirrored key %s" % (">" if c1 > c2 else ("<" if c1 < c2 else "="), mirrored)
         try:
-            got = _sparse_run(pbody, p1, p2, cs, gi, gj, gv, c1, c2, mirrored)
+            got = _sparse_run(pbody, p1, p2, cs, gi, gj, gv, c1, c2, mirrored, triplets)
             okp = (got is None and exp is None) or (got is not None and exp is not None and not isinstance(got, str)
                                                      and got[0] == exp[0] and got[1] == exp[1] and isinstance(got[2], Rat) and got[2].equals(exp[2]))
             msg = ("emits (row, col, value) = (%s, %s, %s)" % exp if exp else "emits nothing (handled when the mirrored key is visited)") if okp else \
@@ -480,7 +496,7 @@ class _Skip(Exception):
     pass
 
 
-def _sparse_run(body, p1, p2, cs, gi, gj, gv, c1, c2, mirrored):
+def _sparse_run(body, p1, p2, cs, gi, gj, gv, c1, c2, mirrored, triplets=None):
     """Abstract run of the pair branch with concrete indices c1, c2 and symbolic weights; returns the appended (row, col, value), None, or a text."""
     owner = cs.owner
     w, ws = Rat.sym("w"), Rat.sym("ws")
@@ -492,14 +508,14 @@ def _sparse_run(body, p1, p2, cs, gi, gj, gv, c1, c2, mirrored):
         ws_val, present = Rat(0), True
     else:
         ws_val, present = None, False
-    env = {cs.weight: w}
+    env = {cs.weight: w, p1: ("point", 1), p2: ("point", 2)}
     out = {"i": [], "j": [], "v": []}
 
     def is_dict(e):
         return dotted(e) == owner + ".decomposition_dict"
 
     def key_of(e):
-        """'mirror' for (p2, p1), 'own' for (p1, p2) / the loop key"""
+        """'mirror' for (p2, p1), 'own' for (p1, p2) / the loop key -- through local aliases"""
         if isinstance(e, ast.Tuple) and len(e.elts) == 2:
             names = [dotted(x) for x in e.elts]
             if names == [p2, p1]:
@@ -508,6 +524,12 @@ def _sparse_run(body, p1, p2, cs, gi, gj, gv, c1, c2, mirrored):
                 return "own"
         if dotted(e) == cs.key:
             return "own"
+        if isinstance(e, ast.Name) and e.id in env:
+            v = env[e.id]
+            if v == (("point", 2), ("point", 1)):
+                return "mirror"
+            if v == (("point", 1), ("point", 2)):
+                return "own"
         return None
 
     def ev(e):
@@ -621,7 +643,11 @@ def _sparse_run(body, p1, p2, cs, gi, gj, gv, c1, c2, mirrored):
             elif isinstance(st, ast.Expr) and isinstance(st.value, ast.Call) and call_name(st.value) == "append":
                 tgt = dotted(st.value.func.value)
                 v = ev(st.value.args[0])
-                if tgt == gv:
+                if triplets is not None and tgt == triplets and isinstance(v, tuple) and len(v) == 3:
+                    out["i"].append(v[0])
+                    out["j"].append(v[1])
+                    out["v"].append(Rat(v[2]) if isinstance(v[2], int) else v[2])
+                elif tgt == gv:
                     out["v"].append(Rat(v) if isinstance(v, int) else v)
                 elif tgt == gi:
                     out["i"].append(v)
